@@ -24,6 +24,7 @@ type C35Case struct {
 
 func genC35(t *rapid.T) C35Case {
 	wl := genCompileWL(t, 5, rapid.IntRange(0, 3).Draw(t, "defects") == 0)
+	wl.dropOverride() // (the experimental compiler takes descriptor.proto from source.WKTs())
 	c := C35Case{WL: wl, Par: rapid.IntRange(1, 4).Draw(t, "par")}
 	c.Roots = genRequest(t, wl.names())
 	if rapid.IntRange(0, 4).Draw(t, "hub") == 0 {
